@@ -9,7 +9,7 @@ import AlgoVerif.Proofs.C02LinDel
 `Proofs/C02Sim.lean` (by cases, from `Chain.correct`, `Lin.correct`, `OA.correct`).  `pool_step_sim`: one operation of
 the pool (`Model/C02Pool.lean`) is matched by the Spec for an admissible listing, and the relation — table `i`
 refines map `i`, same Go type, same `eqVal`, same iterator values — is kept; `pool_sim`: every history's trace is
-admitted by the Spec.  `Spec.seqsOK_step`, `Spec.pullsOK_step`: what iterator values hold.
+admitted by the Spec.  `Spec.itersOK_step`, `Spec.drain`: what iterator values hold.
 -/
 namespace AlgoVerif.C02
 open Spec
@@ -393,17 +393,31 @@ theorem pool_step_sim {sh : Shuffle σ} (hsh : ShufflePerm sh) (ps : PState K V 
       simp only [this]
       exact ⟨_, _, [], rfl, trivial, rfl, h⟩
     | some o =>
-      obtain ⟨ts, hts, hty, heq, hrel⟩ := h.some hoi
-      have hperm : (Tab.all sh o.tab g).1.Perm ts.map := Rel.all_perm (Tab.correct hsh o.hash o.eqVal) hrel g
+      obtain ⟨ts, hts, _⟩ := h.some hoi
       simp only [hts]
-      refine ⟨_, _, (Tab.all sh o.tab g).1, rfl, hperm, by rw [hit], ⟨h.len, h.rel, ?_⟩⟩
-      simp only [hit]
+      exact ⟨_, _, [], rfl, trivial, by rw [hit], ⟨h.len, h.rel, by simp only [hit]⟩⟩
   | pull sq =>
     simp only [Pool.step, pstep, choiceOK]
     exact ⟨_, _, [], rfl, trivial, by rw [hit], ⟨h.len, h.rel, by simp only [hit]⟩⟩
   | next p =>
+    subst hit
     simp only [Pool.step, pstep, choiceOK]
-    exact ⟨_, _, [], rfl, trivial, by rw [hit], ⟨h.len, h.rel, by simp only [hit]⟩⟩
+    cases hf : ss.it.freshTid p with
+    | none =>
+      simp only [Option.bind_none]
+      exact ⟨_, _, [], rfl, rfl, rfl, ⟨h.len, h.rel, rfl⟩⟩
+    | some tid =>
+      simp only [Option.bind_some]
+      cases hoi : objs[tid]? with
+      | none =>
+        have := h.none hoi
+        simp only [this]
+        exact ⟨_, _, [], rfl, rfl, rfl, ⟨h.len, h.rel, rfl⟩⟩
+      | some o =>
+        obtain ⟨ts, hts, hty, heq, hrel⟩ := h.some hoi
+        have hperm : (Tab.all sh o.tab g).1.Perm ts.map := Rel.all_perm (Tab.correct hsh o.hash o.eqVal) hrel g
+        simp only [hts]
+        exact ⟨_, _, (Tab.all sh o.tab g).1, rfl, hperm, rfl, ⟨h.len, h.rel, rfl⟩⟩
   | stop p =>
     simp only [Pool.step, pstep, choiceOK]
     exact ⟨_, _, [], rfl, trivial, by rw [hit], ⟨h.len, h.rel, by simp only [hit]⟩⟩
@@ -468,124 +482,83 @@ theorem Pool.init_rel (cfgs : List (Cfg K V)) (hv : ∀ c ∈ cfgs, c.Valid) :
 
 /-! ## what iterator values hold (invariants of the Spec) -/
 
-theorem Spec.seqsOK_init (cfgs : List (Cfg K V)) : SeqsOK (specInit cfgs) := by
-  intro sq hsq; simp [specInit] at hsq
+theorem Spec.itersOK_init (cfgs : List (Cfg K V)) : ItersOK (specInit cfgs) := by
+  constructor
+  · intro sq hsq; simp [specInit] at hsq
+  · intro pl hpl; simp [specInit] at hpl
 
-theorem Spec.pullsOK_init (cfgs : List (Cfg K V)) : PullsOK (specInit cfgs) := by
-  intro pl hpl; simp [specInit] at hpl
+theorem getElem?_set_of_some {α : Type} (l : List α) (i j : Nat) (a x : α) (h : l[j]? = some x) :
+    ∃ y, (l.set i a)[j]? = some y ∧ (i ≠ j → y = x) := by
+  rw [List.getElem?_set]
+  by_cases hij : i = j
+  · subst hij
+    have : i < l.length := (List.getElem?_eq_some_iff.1 h).1
+    exact ⟨a, by simp [this], fun hne => absurd rfl hne⟩
+  · exact ⟨x, by simp [hij, h], fun _ => rfl⟩
 
-/-- after a change of table `i` the sequences that are still valid are those of the other tables -/
-theorem seqsOK_set {s : PSState K V} (h : SeqsOK s) (i : Nat) (t' : STab K V) :
-    SeqsOK ⟨s.tabs.set i t', s.it.invalidate i⟩ := by
-  intro sq' hsq' hv'
-  simp only [Iters.invalidate, List.mem_map] at hsq'
-  obtain ⟨sq, hsq, rfl⟩ := hsq'
-  by_cases hti : sq.tid = i
-  · simp [hti] at hv'
-  · simp only [hti, if_false] at hv' ⊢
-    obtain ⟨t, ht, hp⟩ := h sq hsq hv'
-    refine ⟨t, ?_, hp⟩
-    simp only [List.getElem?_set]
-    have : ¬ i = sq.tid := fun e => hti e.symm
-    simp [this, ht]
+/-- a change of table `i`: the traversals of table `i` that were half-way are broken, everything else stands -/
+theorem itersOK_set {s : PSState K V} (h : ItersOK s) (i : Nat) (t' : STab K V) :
+    ItersOK ⟨s.tabs.set i t', s.it.invalidate i⟩ := by
+  obtain ⟨hA, hB⟩ := h
+  constructor
+  · intro sq hsq
+    obtain ⟨t, ht⟩ := hA sq hsq
+    obtain ⟨y, hy, _⟩ := getElem?_set_of_some s.tabs i sq.tid t' t ht
+    exact ⟨y, hy⟩
+  · intro pl' hpl'
+    simp only [Iters.invalidate, List.mem_map] at hpl'
+    obtain ⟨pl, hpl, rfl⟩ := hpl'
+    obtain ⟨t, ht, hrun⟩ := hB pl hpl
+    obtain ⟨y, hy, hyx⟩ := getElem?_set_of_some s.tabs i pl.tid t' t ht
+    by_cases hc : pl.tid = i ∧ pl.phase = .running
+    · simp only [hc, and_self, if_true]
+      exact ⟨y, by simpa [hc.1] using hy, fun hr => by simp at hr⟩
+    · simp only [hc, if_false]
+      refine ⟨y, hy, fun hr => ?_⟩
+      have hne : i ≠ pl.tid := fun e => hc ⟨e.symm, hr⟩
+      rw [hyx hne]
+      exact hrun hr
 
-theorem Spec.seqsOK_step (s : PSState K V) (op : POp K V) (choice : List (K × V)) (hc : choiceOK s op choice)
-    (h : SeqsOK s) : SeqsOK (pstep s op choice).1 := by
-  cases op with
-  | put i k v =>
-    simp only [pstep]
-    cases hi : s.tabs[i]? with
-    | none => exact h
-    | some t => exact seqsOK_set h i _
-  | delete i k =>
-    simp only [pstep]
-    cases hi : s.tabs[i]? with
-    | none => exact h
-    | some t => exact seqsOK_set h i _
-  | deleteAll i =>
-    simp only [pstep]
-    cases hi : s.tabs[i]? with
-    | none => exact h
-    | some t => exact seqsOK_set h i _
-  | get i k => simp only [pstep]; cases s.tabs[i]? <;> exact h
-  | size i => simp only [pstep]; cases s.tabs[i]? <;> exact h
-  | isEmpty i => simp only [pstep]; cases s.tabs[i]? <;> exact h
-  | all i => simp only [pstep]; cases s.tabs[i]? <;> exact h
-  | equal i j => simp only [pstep]; cases s.tabs[i]? <;> cases s.tabs[j]? <;> exact h
-  | seq i =>
-    simp only [pstep]
-    cases hi : s.tabs[i]? with
-    | none => exact h
-    | some t =>
-      simp only [choiceOK, hi] at hc
-      intro sq hsq hv
-      simp only [Iters.addSeq, List.mem_append, List.mem_singleton] at hsq
-      rcases hsq with hsq | rfl
-      · exact h sq hsq hv
-      · exact ⟨t, hi, hc⟩
-  | pull sq =>
-    simp only [pstep, Iters.pull]
-    cases hq : s.it.seqs[sq]? with
-    | none => exact h
-    | some q => by_cases hv : q.valid = true <;> simp only [hv] <;> exact h
-  | next p =>
-    simp only [pstep, Iters.next]
-    cases hp : s.it.pulls[p]? with
-    | none => exact h
-    | some pl =>
-      simp only
-      cases hq : s.it.seqs[pl.sid]? with
-      | none => exact h
-      | some q =>
-        simp only
-        by_cases hv : q.valid = true
-        · by_cases hl : pl.live = true
-          · cases hr : pl.rest with
-            | nil => simp only [hv, hl]; exact h
-            | cons e r => simp only [hv, hl]; exact h
-          · simp only [hv, hl]; exact h
-        · simp only [hv]; exact h
-  | stop p =>
-    simp only [pstep, Iters.stop]
-    cases hp : s.it.pulls[p]? with
-    | none => exact h
-    | some pl => exact h
-
-theorem pullsOK_invalidate {s : PSState K V} (h : PullsOK s) (i : Nat) (tabs' : List (STab K V)) :
-    PullsOK ⟨tabs', s.it.invalidate i⟩ := by
-  intro pl hpl
-  obtain ⟨sq, hsq, hsuf⟩ := h pl hpl
-  refine ⟨if sq.tid = i then { sq with valid := false } else sq, ?_, ?_⟩
-  · simp [Iters.invalidate, hsq]
-  · split <;> exact hsuf
-
-theorem pullsOK_setPull {s : PSState K V} (h : PullsOK s) (p : Nat) (pl pl' : PullV K V) (hp : s.it.pulls[p]? = some pl)
-    (hsid : pl'.sid = pl.sid) (hsuf : pl'.rest <:+ pl.rest) :
-    PullsOK { s with it := { s.it with pulls := s.it.pulls.set p pl' } } := by
+/-- traversal `p` is replaced by `pl'`, which satisfies the invariant -/
+theorem itersOK_setPull {s : PSState K V} (h : ItersOK s) (p : Nat) (pl' : PullV K V)
+    (hpl' : ∃ t, s.tabs[pl'.tid]? = some t ∧ (pl'.phase = .running → ∃ l : List (K × V), l.Perm t.map ∧ pl'.rest <:+ l)) :
+    ItersOK { s with it := { s.it with pulls := s.it.pulls.set p pl' } } := by
+  refine ⟨h.1, ?_⟩
   intro x hx
   rcases List.mem_or_eq_of_mem_set hx with hx | rfl
-  · exact h x hx
-  · obtain ⟨sq, hsq, hs⟩ := h pl (List.mem_of_getElem? hp)
-    exact ⟨sq, by rw [hsid]; exact hsq, hsuf.trans hs⟩
+  · exact h.2 x hx
+  · exact hpl'
 
-theorem Spec.pullsOK_step (s : PSState K V) (op : POp K V) (choice : List (K × V)) (h : PullsOK s) :
-    PullsOK (pstep s op choice).1 := by
+theorem itersOK_advance {s : PSState K V} (h : ItersOK s) (p : Nat) (pl : PullV K V)
+    (hpl : ∃ t, s.tabs[pl.tid]? = some t ∧ ∃ l : List (K × V), l.Perm t.map ∧ pl.rest <:+ l) :
+    ItersOK { s with it := (s.it.advance p pl).1 } := by
+  obtain ⟨t, ht, l, hl, hsuf⟩ := hpl
+  unfold Iters.advance
+  cases hr : pl.rest with
+  | nil => exact itersOK_setPull h p _ ⟨t, ht, fun hrun => ⟨l, hl, by simpa [hr] using hsuf⟩⟩
+  | cons e r =>
+    refine itersOK_setPull h p _ ⟨t, ht, fun _ => ⟨l, hl, ?_⟩⟩
+    rw [hr] at hsuf
+    exact (List.suffix_cons e r).trans hsuf
+
+theorem Spec.itersOK_step (s : PSState K V) (op : POp K V) (choice : List (K × V)) (hc : choiceOK s op choice)
+    (h : ItersOK s) : ItersOK (pstep s op choice).1 := by
   cases op with
   | put i k v =>
     simp only [pstep]
     cases hi : s.tabs[i]? with
     | none => exact h
-    | some t => exact pullsOK_invalidate h i _
+    | some t => exact itersOK_set h i _
   | delete i k =>
     simp only [pstep]
     cases hi : s.tabs[i]? with
     | none => exact h
-    | some t => exact pullsOK_invalidate h i _
+    | some t => exact itersOK_set h i _
   | deleteAll i =>
     simp only [pstep]
     cases hi : s.tabs[i]? with
     | none => exact h
-    | some t => exact pullsOK_invalidate h i _
+    | some t => exact itersOK_set h i _
   | get i k => simp only [pstep]; cases s.tabs[i]? <;> exact h
   | size i => simp only [pstep]; cases s.tabs[i]? <;> exact h
   | isEmpty i => simp only [pstep]; cases s.tabs[i]? <;> exact h
@@ -596,51 +569,53 @@ theorem Spec.pullsOK_step (s : PSState K V) (op : POp K V) (choice : List (K × 
     cases hi : s.tabs[i]? with
     | none => exact h
     | some t =>
-      intro pl hpl
-      obtain ⟨sq, hsq, hsuf⟩ := h pl hpl
-      refine ⟨sq, ?_, hsuf⟩
-      simp only [Iters.addSeq]
-      rw [List.getElem?_append_left (List.getElem?_eq_some_iff.1 hsq).1]
-      exact hsq
+      refine ⟨?_, h.2⟩
+      intro sq hsq
+      simp only [Iters.addSeq, List.mem_append, List.mem_singleton] at hsq
+      rcases hsq with hsq | rfl
+      · exact h.1 sq hsq
+      · exact ⟨t, hi⟩
   | pull sq =>
     simp only [pstep, Iters.pull]
     cases hq : s.it.seqs[sq]? with
     | none => exact h
     | some q =>
-      by_cases hv : q.valid = true
-      · simp only [hv, if_true]
-        intro pl hpl
-        simp only [List.mem_append, List.mem_singleton] at hpl
-        rcases hpl with hpl | rfl
-        · exact h pl hpl
-        · exact ⟨q, hq, List.suffix_refl _⟩
-      · simp only [hv]; exact h
+      refine ⟨h.1, ?_⟩
+      intro pl hpl
+      simp only [List.mem_append, List.mem_singleton] at hpl
+      rcases hpl with hpl | rfl
+      · exact h.2 pl hpl
+      · obtain ⟨t, ht⟩ := h.1 q (List.mem_of_getElem? hq)
+        exact ⟨t, ht, fun hr => by simp at hr⟩
   | next p =>
     simp only [pstep, Iters.next]
     cases hp : s.it.pulls[p]? with
     | none => exact h
     | some pl =>
-      simp only
-      cases hq : s.it.seqs[pl.sid]? with
-      | none => exact h
-      | some q =>
-        simp only
-        by_cases hv : q.valid = true
-        · by_cases hl : pl.live = true
-          · cases hr : pl.rest with
-            | nil =>
-              simp only [hv, hl]
-              exact pullsOK_setPull h p pl _ hp rfl (by simp [hr])
-            | cons e r =>
-              simp only [hv, hl]
-              exact pullsOK_setPull h p pl _ hp rfl (by rw [hr]; exact List.suffix_cons e r)
-          · simp only [hv, hl]; exact h
-        · simp only [hv]; exact h
+      obtain ⟨t, ht, hrun⟩ := h.2 pl (List.mem_of_getElem? hp)
+      cases hph : pl.phase with
+      | broken => simp only [hph]; exact h
+      | done => simp only [hph]; exact h
+      | running =>
+        simp only [hph]
+        obtain ⟨l, hl, hsuf⟩ := hrun hph
+        exact itersOK_advance h p pl ⟨t, ht, l, hl, hsuf⟩
+      | fresh =>
+        simp only [hph]
+        have hperm : choice.Perm t.map := by
+          simp only [choiceOK, Iters.freshTid, hp, hph, if_true, Option.bind_some, ht] at hc
+          exact hc
+        exact itersOK_advance h p { pl with phase := .running, rest := choice } ⟨t, ht, choice, hperm, List.suffix_refl _⟩
   | stop p =>
     simp only [pstep, Iters.stop]
     cases hp : s.it.pulls[p]? with
     | none => exact h
-    | some pl => exact pullsOK_setPull h p pl _ hp rfl (List.suffix_refl _)
+    | some pl =>
+      obtain ⟨t, ht, _⟩ := h.2 pl (List.mem_of_getElem? hp)
+      by_cases hb : pl.phase = .broken
+      · simp only [hb, if_true]; exact h
+      · simp only [hb, if_false]
+        exact itersOK_setPull h p _ ⟨t, ht, fun hr => by simp at hr⟩
 
 /-- a run of the Spec: operations with the listing chosen for each -/
 def Spec.prun : PSState K V → List (POp K V × List (K × V)) → PSState K V
@@ -653,10 +628,58 @@ def Spec.ChoicesOK : PSState K V → List (POp K V × List (K × V)) → Prop
   | s, (op, ch) :: r => choiceOK s op ch ∧ Spec.ChoicesOK (pstep s op ch).1 r
 
 theorem Spec.iters_ok : ∀ (steps : List (POp K V × List (K × V))) (s : PSState K V), Spec.ChoicesOK s steps →
-    SeqsOK s → PullsOK s → SeqsOK (Spec.prun s steps) ∧ PullsOK (Spec.prun s steps)
-  | [], _, _, h1, h2 => ⟨h1, h2⟩
-  | (op, ch) :: r, s, hc, h1, h2 =>
-    Spec.iters_ok r _ hc.2 (Spec.seqsOK_step s op ch hc.1 h1) (Spec.pullsOK_step s op ch h2)
+    ItersOK s → ItersOK (Spec.prun s steps)
+  | [], _, _, h => h
+  | (op, ch) :: r, s, hc, h => Spec.iters_ok r _ hc.2 (Spec.itersOK_step s op ch hc.1 h)
+
+/-- the outputs of a run of the Spec -/
+def Spec.pouts : PSState K V → List (POp K V × List (K × V)) → List (POut K V)
+  | _, [] => []
+  | s, (op, ch) :: r => (pstep s op ch).2 :: Spec.pouts (pstep s op ch).1 r
+
+/-- a traversal that is half-way with `rest` left, advanced until it reports the end, yields exactly `rest`, in order -/
+theorem Spec.drain_running : ∀ (rest : List (K × V)) (s : PSState K V) (p : Nat) (pl : PullV K V),
+    s.it.pulls[p]? = some pl → pl.phase = .running → pl.rest = rest →
+    ∀ chs : List (List (K × V)), chs.length = rest.length + 1 →
+      Spec.pouts s (chs.map fun ch => (POp.next p, ch)) = rest.map POut.pair ++ [POut.done]
+  | [], s, p, pl, hp, hph, hr, chs, hlen => by
+    match chs, hlen with
+    | [ch], _ =>
+      simp [Spec.pouts, pstep, Iters.next, hp, hph, Iters.advance, hr]
+  | e :: r, s, p, pl, hp, hph, hr, chs, hlen => by
+    match chs, hlen with
+    | ch :: chs', hlen' =>
+      have hlt : p < s.it.pulls.length := (List.getElem?_eq_some_iff.1 hp).1
+      have hstep : pstep s (.next p) ch =
+          ({ s with it := { s.it with pulls := s.it.pulls.set p { pl with rest := r } } }, .pair e) := by
+        simp [pstep, Iters.next, hp, hph, Iters.advance, hr]
+      simp only [List.map_cons, Spec.pouts, hstep, List.cons_append, List.cons.injEq, true_and]
+      apply Spec.drain_running r _ p { pl with rest := r }
+      · simp [hlt]
+      · exact hph
+      · rfl
+      · simpa using hlen'
+
+/-- a traversal that has not started, advanced until it reports the end, yields exactly the listing chosen at its
+first `next` — a permutation of the map as it is THEN, whatever happened to the table since the sequence and the
+traversal were obtained -/
+theorem Spec.drain_fresh (s : PSState K V) (p : Nat) (pl : PullV K V) (hp : s.it.pulls[p]? = some pl)
+    (hph : pl.phase = .fresh) (ch : List (K × V)) (chs : List (List (K × V))) (hlen : chs.length = ch.length) :
+    Spec.pouts s ((ch :: chs).map fun c => (POp.next p, c)) = ch.map POut.pair ++ [POut.done] := by
+  have hlt : p < s.it.pulls.length := (List.getElem?_eq_some_iff.1 hp).1
+  cases ch with
+  | nil =>
+    cases chs with
+    | nil => simp [Spec.pouts, pstep, Iters.next, hp, hph, Iters.advance]
+    | cons _ _ => simp at hlen
+  | cons e r =>
+    have hstep : pstep s (.next p) (e :: r) =
+        ({ s with it := { s.it with pulls := s.it.pulls.set p { pl with phase := .running, rest := r } } }, .pair e) := by
+      simp [pstep, Iters.next, hp, hph, Iters.advance]
+    simp only [List.map_cons, Spec.pouts, hstep, List.cons_append, List.cons.injEq, true_and]
+    have := Spec.drain_running r { s with it := { s.it with pulls := s.it.pulls.set p { pl with phase := .running, rest := r } } } p
+      { pl with phase := .running, rest := r } (by simp [hlt]) rfl rfl chs (by simpa using hlen)
+    simpa using this
 
 /-! ## probe bounds in every table of a reached pool (C03) -/
 
